@@ -440,7 +440,8 @@ def _run(case, out, w):
 
 def legit_retry(messages, m, jid, server):
     """the recipient had a legitimate reason to ask for a retry of m: its first copy was corrupted, or (groups) it arrived
-    before an earlier message of the same sender to the same group, i.e. before the sender key it depends on"""
+    before an earlier message of the same sender to the same group (or after a corrupted copy of it only), i.e. before the
+    sender key it depends on"""
     if jid in m.get("corrupted_first", ()):
         return True
     if m["to"] not in GROUPS:
@@ -459,7 +460,9 @@ def legit_retry(messages, m, jid, server):
         # the sender's first message to this group: the library only distributes the sender key to members it had to open a
         # session with; a member it already had a session with gets the bare group ciphertext and has to ask for a retry
         return True
-    return any(m0["id"] not in order[:first] for m0 in earlier)
+    # ... or the earlier message did arrive first but its copy was corrupted and its re-sent copy had not come yet
+    return any(m0["id"] not in order[:first] or (jid in m0.get("corrupted_first", ()) and order[:first].count(m0["id"]) < 2)
+               for m0 in earlier)
 
 
 def find_message(messages, mid):
